@@ -1,5 +1,6 @@
 import IrefVerif.Lemmas.ResolveTotal
 import IrefVerif.Lemmas.ResolveRel
+import IrefVerif.Lemmas.ResolveRelNoAuth
 
 /-!
 # Where relativisation does round-trip
@@ -391,19 +392,18 @@ theorem renderRel_ne_nil (L : List Text) (hne : L ≠ []) (hns : ∀ s ∈ L, cS
       | nil => simp at hsh'
       | cons c r => cases xs <;> simp [joinSlash]
 
-/-- **what `relative_to` returns on the class**: `./`? `../` for every remaining segment of `b`'s
-directory, then the remaining segments of `a` -/
-theorem relative_to_explicit (oka : Grammar.OkAuth G) (we : Grammar.OkWE G) (a b aa ab : Text)
+/-- the path part of `relative_to` on two paths that both count as absolute (the base's may be
+empty behind an authority) -/
+theorem relative_body_explicit (we : Grammar.OkWE G) (a b : Text)
     (ha : Matches G.reference a) (hb : Matches G.reference b)
-    (hsch : (split a).scheme = (split b).scheme)
-    (haa : (split a).authority = some aa) (hab : (split b).authority = some ab) (hauth : authKey aa = authKey ab)
-    (hpa : isAbs (split a).path = true) (hpb : isAbs (split b).path = true ∨ (split b).path = [])
+    (hpa : isAbs (split a).path = true)
+    (hpb : isAbs (split b).path = true ∨ ((split b).path = [] ∧ (split b).authority.isSome = true))
     (hLne0 : relSegs a b ≠ [])
     (hcls : (!(remainder a b).2.2 && (remainder a b).1.head? == some []) = false)
     (hnsp : (((split a).query.isSome || (split a).fragment.isSome) &&
       ((split a).query.isSome || (split b).query.isNone) &&
       some (renderRel (relSegs a b)) == Path.last (split b).path) = false) :
-    Ref.relative_to a b = some (recompose (pathQF (renderRel (relSegs a b)) (split a).query (split a).fragment)) := by
+    Ref.relative_body a b = some (recompose (pathQF (renderRel (relSegs a b)) (split a).query (split a).fragment)) := by
   obtain ⟨vA, wA⟩ := split_valid G ok a ha
   obtain ⟨vO, wO⟩ := split_valid G ok b hb
   have hsa := ref_scheme_opt_recompose (split a) wA
@@ -433,7 +433,7 @@ theorem relative_to_explicit (oka : Grammar.OkAuth G) (we : Grammar.OkWE G) (a b
         rw [hpp'] at hpb
         have : c = cSlash := by simpa [isAbs] using hpb
         exact ⟨t, by rw [this]⟩
-    · exact .inl hpb
+    · exact .inl hpb.1
   have he0 : nsegs (Path.parent_or_empty (split b).path) = nsegsOf true (segs (split b).path).dropLast := by
     rcases hBab with e | ⟨q, hqb'⟩
     · rw [e]; decide
@@ -447,14 +447,14 @@ theorem relative_to_explicit (oka : Grammar.OkAuth G) (we : Grammar.OkWE G) (a b
   have hbody : Ref.relative_body a b = some (recompose (pathQF (renderRel (relSegs a b))
       (split a).query (split a).fragment)) := by
     unfold Ref.relative_body
-    simp only [hpA, hpO, hqa, hqb, hfa, hbu, hab, normalized_segments_eq _ hptA, normalized_segments_eq _ (hpp hptO)]
+    simp only [hpA, hpO, hqa, hqb, hfa, hbu, normalized_segments_eq _ hptA, normalized_segments_eq _ (hpp hptO)]
     -- both paths count as absolute
     have habs : (Path.is_absolute (split a).path !=
-        (Path.is_absolute (split b).path || ((some ab).isSome && Path.is_empty (split b).path))) = false := by
+        (Path.is_absolute (split b).path || ((split b).authority.isSome && Path.is_empty (split b).path))) = false := by
       rw [is_absolute_eq, is_absolute_eq, hpa]
-      rcases hpb with h | h
+      rcases hpb with h | ⟨h, h2⟩
       · rw [h]; rfl
-      · rw [h]; rfl
+      · rw [h, h2]; rfl
     simp only [habs, Bool.false_eq_true, if_false, head_not_dotdot hdfA, head_not_dotdot hdfB, Bool.or_self]
     rw [dropCommonPanics_false _ _ hws hwb]
     simp only [Bool.false_eq_true, if_false]
@@ -518,10 +518,57 @@ theorem relative_to_explicit (oka : Grammar.OkAuth G) (we : Grammar.OkWE G) (a b
     rw [hsame] at q1
     simp only [q1, Option.bind_some, f1]
     rfl
+  exact hbody
 
+/-- **what `relative_to` returns on the class**: `./`? `../` for every remaining segment of `b`'s
+directory, then the remaining segments of `a` -/
+theorem relative_to_explicit (oka : Grammar.OkAuth G) (we : Grammar.OkWE G) (a b aa ab : Text)
+    (ha : Matches G.reference a) (hb : Matches G.reference b)
+    (hsch : (split a).scheme = (split b).scheme)
+    (haa : (split a).authority = some aa) (hab : (split b).authority = some ab) (hauth : authKey aa = authKey ab)
+    (hpa : isAbs (split a).path = true) (hpb : isAbs (split b).path = true ∨ (split b).path = [])
+    (hLne0 : relSegs a b ≠ [])
+    (hcls : (!(remainder a b).2.2 && (remainder a b).1.head? == some []) = false)
+    (hnsp : (((split a).query.isSome || (split a).fragment.isSome) &&
+      ((split a).query.isSome || (split b).query.isNone) &&
+      some (renderRel (relSegs a b)) == Path.last (split b).path) = false) :
+    Ref.relative_to a b = some (recompose (pathQF (renderRel (relSegs a b)) (split a).query (split a).fragment)) := by
+  obtain ⟨vA, wA⟩ := split_valid G ok a ha
+  obtain ⟨vO, wO⟩ := split_valid G ok b hb
+  have hsa := ref_scheme_opt_recompose (split a) wA
+  have hso := ref_scheme_opt_recompose (split b) wO
+  have hau := ref_authority_recompose (split a) wA
+  have hbu := ref_authority_recompose (split b) wO
+  rw [Lemmas.recompose_split] at hsa hso hau hbu
+  have hbody := relative_body_explicit G ok okp we a b ha hb hpa
+    (hpb.elim .inl (fun h => .inr ⟨h, by rw [hab]; rfl⟩)) hLne0 hcls hnsp
   unfold Ref.relative_to
   simp only [hsa, hso, hau, hbu, haa, hab, hsch,
     authorityEq_key G oka we aa ab (vA.authority aa haa) (vO.authority ab hab), hauth, decide_true]
+  cases (split b).scheme <;> simp [hbody]
+
+/-- the same without authorities, both paths absolute -/
+theorem relative_to_explicit_noauth (we : Grammar.OkWE G) (a b : Text)
+    (ha : Matches G.reference a) (hb : Matches G.reference b)
+    (hsch : (split a).scheme = (split b).scheme)
+    (haa : (split a).authority = none) (hab : (split b).authority = none)
+    (hpa : isAbs (split a).path = true) (hpb : isAbs (split b).path = true)
+    (hLne0 : relSegs a b ≠ [])
+    (hcls : (!(remainder a b).2.2 && (remainder a b).1.head? == some []) = false)
+    (hnsp : (((split a).query.isSome || (split a).fragment.isSome) &&
+      ((split a).query.isSome || (split b).query.isNone) &&
+      some (renderRel (relSegs a b)) == Path.last (split b).path) = false) :
+    Ref.relative_to a b = some (recompose (pathQF (renderRel (relSegs a b)) (split a).query (split a).fragment)) := by
+  obtain ⟨vA, wA⟩ := split_valid G ok a ha
+  obtain ⟨vO, wO⟩ := split_valid G ok b hb
+  have hsa := ref_scheme_opt_recompose (split a) wA
+  have hso := ref_scheme_opt_recompose (split b) wO
+  have hau := ref_authority_recompose (split a) wA
+  have hbu := ref_authority_recompose (split b) wO
+  rw [Lemmas.recompose_split] at hsa hso hau hbu
+  have hbody := relative_body_explicit G ok okp we a b ha hb hpa (.inl hpb) hLne0 hcls hnsp
+  unfold Ref.relative_to
+  simp only [hsa, hso, hau, hbu, haa, hab, hsch]
   cases (split b).scheme <;> simp [hbody]
 
 omit ok okp in
@@ -542,31 +589,55 @@ theorem splitSlash_renderRel (L : List Text) (hne : L ≠ []) (hns : ∀ s ∈ L
       simp only [hsh', Bool.false_eq_true, if_false, List.nil_append]
       rw [splitSlash_joinSlash _ (by simp) hns]
 
-/-- **the round trip on the class** -/
-theorem relative_roundtrip (oka : Grammar.OkAuth G) (we : Grammar.OkWE G) (a b aa ab : Text)
+/-- the shape of the resolved target -/
+def tgt (sb : Text) (ob : Option Text) (p : Text) (q f : Option Text) : Spec.Parts :=
+  { scheme := some sb, authority := ob, path := p, query := q, fragment := f }
+
+/-- something is always written when the target is not the root -/
+theorem relSegs_ne_nil (we : Grammar.OkWE G) (a b : Text)
+    (ha : Matches G.reference a) (hb : Matches G.reference b) (hne : nsegs (split a).path ≠ []) :
+    relSegs a b ≠ [] := by
+  obtain ⟨vA, _⟩ := split_valid G ok a ha
+  obtain ⟨vB, _⟩ := split_valid G ok b hb
+  have hweA0 : wellEscaped (split a).path = true := path_we G we _ vA
+  have hweB0 : wellEscaped (split b).path = true := path_we G we _ vB
+  obtain ⟨_, _, _, _, _, _, h7⟩ := dropCommon_spec (nsegs (split a).path) (nsegs (Path.parent_or_empty (split b).path))
+    (nsegs_we _ hweA0) (nsegs_we _ ((parent_or_empty_props (split b).path).1 hweB0))
+  unfold relSegs remainder
+  intro e
+  exact h7 hne (List.append_eq_nil_iff.mp e).2
+
+omit ok okp in
+theorem startsSS_slash_join (X : List Text) (hns : ∀ s ∈ X, cSlash ∉ s) (hh : X.head? ≠ some []) :
+    startsSS (cSlash :: joinSlash X) = false := by
+  cases X with
+  | nil => rfl
+  | cons x xs =>
+    cases x with
+    | nil => simp at hh
+    | cons c r =>
+      have hc : c ≠ cSlash := fun e => hns (c :: r) List.mem_cons_self (e ▸ List.mem_cons_self)
+      cases xs <;> simp [joinSlash, startsSS, hc]
+
+/-- **the round trip on the class**, with or without authority (the same on both sides): given
+what `relative_to` returns there -/
+theorem relative_roundtrip_core (oka : Grammar.OkAuth G) (we : Grammar.OkWE G) (a b : Text) (ob : Option Text)
     (ha : Matches G.full a) (hb : Matches G.full b)
     (hsch : (split a).scheme = (split b).scheme)
-    (haa : (split a).authority = some aa) (hab : (split b).authority = some ab) (hauth : authKey aa = authKey ab)
-    (hpa : isAbs (split a).path = true) (hpb : isAbs (split b).path = true ∨ (split b).path = [])
+    (hab : (split b).authority = ob) (hkeyA : (split a).authority.map authKey = ob.map authKey)
+    (hpa : isAbs (split a).path = true)
+    (hpb : isAbs (split b).path = true ∨ ((split b).path = [] ∧ ob.isSome = true))
     (hne : nsegs (split a).path ≠ [])
     (hcls : (!(remainder a b).2.2 && (remainder a b).1.head? == some []) = false)
-    (hnsp : (((split a).query.isSome || (split a).fragment.isSome) &&
-      ((split a).query.isSome || (split b).query.isNone) &&
-      some (renderRel (relSegs a b)) == Path.last (split b).path) = false) :
+    (hhd : ob = none → (nsegs (split a).path).head? ≠ some [] ∧
+      (nsegs (Path.parent_or_empty (split b).path)).head? ≠ some [])
+    (hrel : Ref.relative_to a b =
+      some (recompose (pathQF (renderRel (relSegs a b)) (split a).query (split a).fragment))) :
     ∃ r t, Ref.relative_to a b = some r ∧ Ref.resolve r b = some t ∧ key t = key a := by
   have haR : Matches G.reference a := Matches.altL ha
   have hbR : Matches G.reference b := Matches.altL hb
   obtain ⟨vA, wA⟩ := split_valid G ok a haR
   obtain ⟨vB, wB⟩ := split_valid G ok b hbR
-  have hLne0 : relSegs a b ≠ [] := by
-    have hweA0 : wellEscaped (split a).path = true := path_we G we _ vA
-    have hweB0 : wellEscaped (split b).path = true := path_we G we _ vB
-    obtain ⟨_, _, _, _, _, _, h7⟩ := dropCommon_spec (nsegs (split a).path) (nsegs (Path.parent_or_empty (split b).path))
-      (nsegs_we _ hweA0) (nsegs_we _ ((parent_or_empty_props (split b).path).1 hweB0))
-    unfold relSegs remainder
-    intro e
-    exact h7 hne (List.append_eq_nil_iff.mp e).2
-  have hrel := relative_to_explicit G ok okp oka we a b aa ab haR hbR hsch haa hab hauth hpa hpb hLne0 hcls hnsp
   obtain ⟨r', er', vr'⟩ := relative_to_total G ok okp oka we a b haR hbR
   rw [hrel] at er'
   simp only [Option.some.injEq] at er'
@@ -585,7 +656,7 @@ theorem relative_roundtrip (oka : Grammar.OkAuth G) (we : Grammar.OkWE G) (a b a
         rw [hpp'] at hpb
         have : c = cSlash := by simpa [isAbs] using hpb
         exact ⟨t, by rw [this]⟩
-    · exact .inl hpb
+    · exact .inl hpb.1
   -- the normalised directory of the base is the start of the walk
   have he0 : nsegs (Path.parent_or_empty (split b).path) = nsegsOf true (segs (split b).path).dropLast := by
     rcases hBab with e | ⟨q, hqb⟩
@@ -669,12 +740,15 @@ theorem relative_roundtrip (oka : Grammar.OkAuth G) (we : Grammar.OkWE G) (a b a
       have hp : (listSymPush true (cb ++ bs) segDot).1 = cb ++ bs := by simp [listSymPush]
       rw [hp]
       exact hskL
-  -- resolution
-  have hres := resolve_relative_authority G ok okp b R ab hb hvr (by rw [hsplit]; rfl) (by rw [hsplit]; rfl)
-    (by rw [hsplit]; exact hRne) (by rw [hsplit]; exact hrelp) hab (by rw [hsplit]; exact hsk)
-  refine ⟨R, _, hrel, hres, ?_⟩
   -- the target
+  have hmerge : merge ob.isSome (split b).path (renderRel L) = merge true (split b).path (renderRel L) := by
+    rcases hpb with h | ⟨_, h2⟩
+    · rcases hBab with e | ⟨q, hq⟩
+      · rw [e] at h; simp [isAbs] at h
+      · rw [hq]; simp [merge]
+    · rw [h2]
   have hrd := removeDots_merge (split b).path (renderRel L) hBab hRne hsk
+  rw [← hmerge] at hrd
   -- the walk
   have hwalk : walk (nsegsOf true (segs (split b).path).dropLast) (splitSlash (renderRel L)) = cb ++ ss := by
     rw [← he0, hB]
@@ -692,11 +766,10 @@ theorem relative_roundtrip (oka : Grammar.OkAuth G) (we : Grammar.OkWE G) (a b a
   obtain ⟨sb, hsb⟩ : ∃ sb, (split b).scheme = some sb := by
     have := ((C02.full_iff_scheme G ok b).mp hb).2
     exact Option.isSome_iff_exists.mp this
-  have hT : resolveSpec b R = { sap sb ab (cSlash :: joinSlash (cb ++ ss)) with
-      query := (split a).query, fragment := (split a).fragment } := by
+  have hT : resolveSpec b R = tgt sb ob (cSlash :: joinSlash (cb ++ ss)) (split a).query (split a).fragment := by
     have hpe : (renderRel L).isEmpty = false := by cases h : renderRel L <;> simp_all
     simp only [resolveSpec, transform, hsplit, pathQF, hpe, Bool.false_eq_true, if_false, hrelp, hab,
-      Option.isSome_some, hrd, hsb, sap]
+      hrd, hsb, tgt]
   have hX : ∀ s ∈ cb ++ ss, cSlash ∉ s := by
     intro s hs
     rcases List.mem_append.mp hs with h | h
@@ -726,13 +799,6 @@ theorem relative_roundtrip (oka : Grammar.OkAuth G) (we : Grammar.OkWE G) (a b a
   obtain ⟨hsg, habsT⟩ := segs_render true (cb ++ ss) hXne hX (by simpa using hXl)
   simp only [if_true, List.singleton_append] at hsg habsT
   have hptT : PathText (cSlash :: joinSlash (cb ++ ss)) := by
-    have hvt := (resolve_total G ok okp b R hb hvr)
-    obtain ⟨t, et, vt⟩ := hvt
-    rw [hres] at et
-    simp only [Option.some.injEq] at et
-    have vtR : Matches G.reference t := Matches.altL vt
-    obtain ⟨_, wt⟩ := split_valid G ok t vtR
-    -- simpler: the characters come from valid paths
     intro c hc
     rcases List.mem_cons.mp hc with h | h
     · subst h; decide
@@ -759,17 +825,52 @@ theorem relative_roundtrip (oka : Grammar.OkAuth G) (we : Grammar.OkWE G) (a b a
               · subst h3; decide
               · exact ih (fun z hz => hM z (List.mem_cons_of_mem _ hz)) c h3
       exact hj _ hall c h
-  have hsaok : SAOk sb ab := ⟨wB.scheme sb hsb, wB.authority ab hab⟩
-  have wfT0 := wf_sap sb ab _ hsaok hptT (.inr ⟨_, rfl⟩)
-  have wfT : WF { sap sb ab (cSlash :: joinSlash (cb ++ ss)) with
-      query := (split a).query, fragment := (split a).fragment } :=
-    { scheme := wfT0.scheme, authority := wfT0.authority, path := wfT0.path, query := wA.query,
-      abempty := wfT0.abempty, noSS := wfT0.noSS, noColon := wfT0.noColon }
+  -- without authority the target must not begin with `//`
+  have hss0 : ob = none → startsSS (cSlash :: joinSlash (cb ++ ss)) = false := by
+    intro hn
+    obtain ⟨h1, h2⟩ := hhd hn
+    apply startsSS_slash_join _ hX
+    cases hcb : cb with
+    | nil =>
+      have hca : ca = [] := by
+        have := congrArg List.length hcab
+        rw [hcb] at this
+        simpa using this
+      rw [hA, hca] at h1
+      simpa using h1
+    | cons c cs =>
+      rw [hB, hcb] at h2
+      simpa using h2
+  have wfT : WF (tgt sb ob (cSlash :: joinSlash (cb ++ ss)) (split a).query (split a).fragment) :=
+    { scheme := fun s hs => by simp only [tgt, Option.some.injEq] at hs; subst hs; exact wB.scheme sb hsb
+      authority := fun x hx => wB.authority x (by rw [hab]; exact hx)
+      path := fun c hc => by
+        have := hptT c hc
+        simp [nQH, this.1, this.2]
+      query := wA.query
+      abempty := fun _ => .inr ⟨_, rfl⟩
+      noSS := fun hn => hss0 hn
+      noColon := fun hn _ => by simp [tgt] at hn }
+  -- resolution
+  have hres : Ref.resolve R b = some (recompose (resolveSpec b R)) := by
+    cases hob : ob with
+    | some ab =>
+      exact resolve_relative_authority G ok okp b R ab hb hvr (by rw [hsplit]; rfl) (by rw [hsplit]; rfl)
+        (by rw [hsplit]; exact hRne) (by rw [hsplit]; exact hrelp) (by rw [hab, hob]) (by rw [hsplit]; exact hsk)
+    | none =>
+      have hBabs : isAbs (split b).path = true := by
+        rcases hpb with h | ⟨_, h2⟩
+        · exact h
+        · rw [hob] at h2; simp at h2
+      exact resolve_relative_noauthority G ok okp b R hb hvr (by rw [hsplit]; rfl) (by rw [hsplit]; rfl)
+        (by rw [hsplit]; exact hRne) (by rw [hsplit]; exact hrelp) (by rw [hab, hob]) hBabs
+        (by rw [hsplit]; exact hsk) (by rw [hT]; exact hss0 hob)
+  refine ⟨R, _, hrel, hres, ?_⟩
   have hsT := Lemmas.split_recompose _ wfT
   rw [hT]
   unfold key
   rw [hsT]
-  simp only [sap, Option.map_some, haa, hsch, hsb, hauth]
+  simp only [tgt, Option.map_some, hsch, hsb, hkeyA]
   congr 1
   unfold pathKey
   rw [hpa, habsT]
@@ -779,36 +880,84 @@ theorem relative_roundtrip (oka : Grammar.OkAuth G) (we : Grammar.OkWE G) (a b a
   have hAn : nsegsOf (isAbs (split a).path) (segs (split a).path) = ca ++ ss := hA
   rw [hAn, List.map_append, List.map_append, hcab]
 
-/-- **the round trip when the target is the root** of the same authority and the base lies below
-it: the reference is `..` repeated, and resolving it climbs back to `/` -/
-theorem relative_roundtrip_root (oka : Grammar.OkAuth G) (we : Grammar.OkWE G) (a b aa ab : Text)
+/-- **the round trip on the class**, equal authorities -/
+theorem relative_roundtrip (oka : Grammar.OkAuth G) (we : Grammar.OkWE G) (a b aa ab : Text)
     (ha : Matches G.full a) (hb : Matches G.full b)
     (hsch : (split a).scheme = (split b).scheme)
     (haa : (split a).authority = some aa) (hab : (split b).authority = some ab) (hauth : authKey aa = authKey ab)
     (hpa : isAbs (split a).path = true) (hpb : isAbs (split b).path = true ∨ (split b).path = [])
-    (hroot : nsegs (split a).path = [])
-    (hbelow : nsegs (Path.parent_or_empty (split b).path) ≠ [])
+    (hne : nsegs (split a).path ≠ [])
+    (hcls : (!(remainder a b).2.2 && (remainder a b).1.head? == some []) = false)
     (hnsp : (((split a).query.isSome || (split a).fragment.isSome) &&
       ((split a).query.isSome || (split b).query.isNone) &&
       some (renderRel (relSegs a b)) == Path.last (split b).path) = false) :
     ∃ r t, Ref.relative_to a b = some r ∧ Ref.resolve r b = some t ∧ key t = key a := by
   have haR : Matches G.reference a := Matches.altL ha
   have hbR : Matches G.reference b := Matches.altL hb
-  obtain ⟨vA, wA⟩ := split_valid G ok a haR
-  obtain ⟨vB, wB⟩ := split_valid G ok b hbR
-  -- nothing is compared: the remainder is the whole directory of the base
+  have hLne0 := relSegs_ne_nil G ok okp we a b haR hbR hne
+  have hrel := relative_to_explicit G ok okp oka we a b aa ab haR hbR hsch haa hab hauth hpa hpb hLne0 hcls hnsp
+  exact relative_roundtrip_core G ok okp oka we a b (some ab) ha hb hsch hab (by rw [haa]; simp [hauth]) hpa
+    (hpb.elim .inl (fun h => .inr ⟨h, rfl⟩)) hne hcls (fun h => by cases h) hrel
+
+/-- **the round trip on the class**, no authority on either side, both paths absolute, neither
+normalised path beginning with an empty segment (which no text without authority can spell) -/
+theorem relative_roundtrip_noauth (oka : Grammar.OkAuth G) (we : Grammar.OkWE G) (a b : Text)
+    (ha : Matches G.full a) (hb : Matches G.full b)
+    (hsch : (split a).scheme = (split b).scheme)
+    (haa : (split a).authority = none) (hab : (split b).authority = none)
+    (hpa : isAbs (split a).path = true) (hpb : isAbs (split b).path = true)
+    (hne : nsegs (split a).path ≠ [])
+    (hha : (nsegs (split a).path).head? ≠ some [])
+    (hhb : (nsegs (Path.parent_or_empty (split b).path)).head? ≠ some [])
+    (hcls : (!(remainder a b).2.2 && (remainder a b).1.head? == some []) = false)
+    (hnsp : (((split a).query.isSome || (split a).fragment.isSome) &&
+      ((split a).query.isSome || (split b).query.isNone) &&
+      some (renderRel (relSegs a b)) == Path.last (split b).path) = false) :
+    ∃ r t, Ref.relative_to a b = some r ∧ Ref.resolve r b = some t ∧ key t = key a := by
+  have haR : Matches G.reference a := Matches.altL ha
+  have hbR : Matches G.reference b := Matches.altL hb
+  have hLne0 := relSegs_ne_nil G ok okp we a b haR hbR hne
+  have hrel := relative_to_explicit_noauth G ok okp we a b haR hbR hsch haa hab hpa hpb hLne0 hcls hnsp
+  exact relative_roundtrip_core G ok okp oka we a b none ha hb hsch hab (by rw [haa]) hpa
+    (.inl hpb) hne hcls (fun _ => ⟨hha, hhb⟩) hrel
+
+omit ok okp in
+/-- the root as target: nothing is compared, the remainder is the whole directory of the base -/
+theorem root_remainder (a b : Text) (hroot : nsegs (split a).path = [])
+    (hbelow : nsegs (Path.parent_or_empty (split b).path) ≠ []) :
+    remainder a b = ([], nsegs (Path.parent_or_empty (split b).path), false) ∧
+    relSegs a b = ((nsegs (Path.parent_or_empty (split b).path)).map fun _ => segDotDot) ∧
+    relSegs a b ≠ [] ∧ (!(remainder a b).2.2 && (remainder a b).1.head? == some []) = false := by
   have hrem : remainder a b = ([], nsegs (Path.parent_or_empty (split b).path), false) := by
     unfold remainder
     rw [hroot]
     cases nsegs (Path.parent_or_empty (split b).path) <;> rfl
   have hLdef : relSegs a b = (nsegs (Path.parent_or_empty (split b).path)).map fun _ => segDotDot := by
     unfold relSegs; rw [hrem]; simp
-  have hLne0 : relSegs a b ≠ [] := by
-    rw [hLdef]
-    intro e
-    exact hbelow (List.map_eq_nil_iff.mp e)
-  have hcls : (!(remainder a b).2.2 && (remainder a b).1.head? == some []) = false := by rw [hrem]; rfl
-  have hrel := relative_to_explicit G ok okp oka we a b aa ab haR hbR hsch haa hab hauth hpa hpb hLne0 hcls hnsp
+  refine ⟨hrem, hLdef, ?_, by rw [hrem]; rfl⟩
+  rw [hLdef]
+  intro e
+  exact hbelow (List.map_eq_nil_iff.mp e)
+
+/-- **the round trip when the target is the root** of the same authority and the base lies below
+it: the reference is `..` repeated, and resolving it climbs back to `/` -/
+theorem relative_roundtrip_root_core (oka : Grammar.OkAuth G) (we : Grammar.OkWE G) (a b : Text) (ob : Option Text)
+    (ha : Matches G.full a) (hb : Matches G.full b)
+    (hsch : (split a).scheme = (split b).scheme)
+    (hab : (split b).authority = ob) (hkeyA : (split a).authority.map authKey = ob.map authKey)
+    (hpa : isAbs (split a).path = true)
+    (hpb : isAbs (split b).path = true ∨ ((split b).path = [] ∧ ob.isSome = true))
+    (hroot : nsegs (split a).path = [])
+    (hbelow : nsegs (Path.parent_or_empty (split b).path) ≠ [])
+    (hrel : Ref.relative_to a b =
+      some (recompose (pathQF (renderRel (relSegs a b)) (split a).query (split a).fragment))) :
+    ∃ r t, Ref.relative_to a b = some r ∧ Ref.resolve r b = some t ∧ key t = key a := by
+  have haR : Matches G.reference a := Matches.altL ha
+  have hbR : Matches G.reference b := Matches.altL hb
+  obtain ⟨vA, wA⟩ := split_valid G ok a haR
+  obtain ⟨vB, wB⟩ := split_valid G ok b hbR
+  -- nothing is compared: the remainder is the whole directory of the base
+  obtain ⟨hrem, hLdef, hLne0, hcls⟩ := root_remainder a b hroot hbelow
   obtain ⟨r', er', vr'⟩ := relative_to_total G ok okp oka we a b haR hbR
   rw [hrel] at er'
   simp only [Option.some.injEq] at er'
@@ -822,7 +971,7 @@ theorem relative_roundtrip_root (oka : Grammar.OkAuth G) (we : Grammar.OkWE G) (
         rw [hpp'] at hpb
         have : c = cSlash := by simpa [isAbs] using hpb
         exact ⟨t, by rw [this]⟩
-    · exact .inl hpb
+    · exact .inl hpb.1
   have he0 : nsegs (Path.parent_or_empty (split b).path) = nsegsOf true (segs (split b).path).dropLast := by
     rcases hBab with e | ⟨q, hqb⟩
     · rw [e]; decide
@@ -868,10 +1017,14 @@ theorem relative_roundtrip_root (oka : Grammar.OkAuth G) (we : Grammar.OkWE G) (
       have hp : (listSymPush true bs segDot).1 = bs := by simp [listSymPush]
       rw [hp]
       exact hskL
-  have hres := resolve_relative_authority G ok okp b R ab hb hvr (by rw [hsplit]; rfl) (by rw [hsplit]; rfl)
-    (by rw [hsplit]; exact hRne) (by rw [hsplit]; exact hrelp) hab (by rw [hsplit]; exact hsk)
-  refine ⟨R, _, hrel, hres, ?_⟩
+  have hmerge : merge ob.isSome (split b).path (renderRel L) = merge true (split b).path (renderRel L) := by
+    rcases hpb with h | ⟨_, h2⟩
+    · rcases hBab with e | ⟨q, hq⟩
+      · rw [e] at h; simp [isAbs] at h
+      · rw [hq]; simp [merge]
+    · rw [h2]
   have hrd := removeDots_merge (split b).path (renderRel L) hBab hRne hsk
+  rw [← hmerge] at hrd
   have hwalk : walk (nsegsOf true (segs (split b).path).dropLast) (splitSlash (renderRel L)) = [] := by
     rw [← he0, ← hbs]
     have hw : walk bs L = [] := by
@@ -887,28 +1040,86 @@ theorem relative_roundtrip_root (oka : Grammar.OkAuth G) (we : Grammar.OkWE G) (
   obtain ⟨sb, hsb⟩ : ∃ sb, (split b).scheme = some sb := by
     have := ((C02.full_iff_scheme G ok b).mp hb).2
     exact Option.isSome_iff_exists.mp this
-  have hT : resolveSpec b R = { sap sb ab [cSlash] with
-      query := (split a).query, fragment := (split a).fragment } := by
+  have hT : resolveSpec b R = tgt sb ob [cSlash] (split a).query (split a).fragment := by
     have hpe : (renderRel L).isEmpty = false := by cases h : renderRel L <;> simp_all
     simp only [resolveSpec, transform, hsplit, pathQF, hpe, Bool.false_eq_true, if_false, hrelp, hab,
-      Option.isSome_some, hrd, hsb, sap]
-  have hsaok : SAOk sb ab := ⟨wB.scheme sb hsb, wB.authority ab hab⟩
-  have wfT0 := wf_sap sb ab [cSlash] hsaok pathText_lit_slash (.inr ⟨_, rfl⟩)
-  have wfT : WF { sap sb ab [cSlash] with
-      query := (split a).query, fragment := (split a).fragment } :=
-    { scheme := wfT0.scheme, authority := wfT0.authority, path := wfT0.path, query := wA.query,
-      abempty := wfT0.abempty, noSS := wfT0.noSS, noColon := wfT0.noColon }
+      hrd, hsb, tgt]
+  have wfT : WF (tgt sb ob [cSlash] (split a).query (split a).fragment) :=
+    { scheme := fun s hs => by simp only [tgt, Option.some.injEq] at hs; subst hs; exact wB.scheme sb hsb
+      authority := fun x hx => wB.authority x (by rw [hab]; exact hx)
+      path := fun c hc => by
+        have := pathText_lit_slash c hc
+        simp [nQH, this.1, this.2]
+      query := wA.query
+      abempty := fun _ => .inr ⟨_, rfl⟩
+      noSS := fun _ => rfl
+      noColon := fun hn _ => by simp [tgt] at hn }
+  have hres : Ref.resolve R b = some (recompose (resolveSpec b R)) := by
+    cases hob : ob with
+    | some ab =>
+      exact resolve_relative_authority G ok okp b R ab hb hvr (by rw [hsplit]; rfl) (by rw [hsplit]; rfl)
+        (by rw [hsplit]; exact hRne) (by rw [hsplit]; exact hrelp) (by rw [hab, hob]) (by rw [hsplit]; exact hsk)
+    | none =>
+      have hBabs : isAbs (split b).path = true := by
+        rcases hpb with h | ⟨_, h2⟩
+        · exact h
+        · rw [hob] at h2; simp at h2
+      exact resolve_relative_noauthority G ok okp b R hb hvr (by rw [hsplit]; rfl) (by rw [hsplit]; rfl)
+        (by rw [hsplit]; exact hRne) (by rw [hsplit]; exact hrelp) (by rw [hab, hob]) hBabs
+        (by rw [hsplit]; exact hsk) (by rw [hT]; rfl)
+  refine ⟨R, _, hrel, hres, ?_⟩
   have hsT := Lemmas.split_recompose _ wfT
   rw [hT]
   unfold key
   rw [hsT]
-  simp only [sap, Option.map_some, haa, hsch, hsb, hauth]
+  simp only [tgt, Option.map_some, hsch, hsb, hkeyA]
   congr 1
   unfold pathKey
   rw [hpa]
   have h1 : isAbs [cSlash] = true := rfl
   have h2 : nsegs [cSlash] = [] := by decide
   rw [h1, h2, hroot]
+
+
+/-- **the round trip when the target is the root** of the same authority and the base lies below
+it: the reference is `..` repeated, and resolving it climbs back to `/` -/
+theorem relative_roundtrip_root (oka : Grammar.OkAuth G) (we : Grammar.OkWE G) (a b aa ab : Text)
+    (ha : Matches G.full a) (hb : Matches G.full b)
+    (hsch : (split a).scheme = (split b).scheme)
+    (haa : (split a).authority = some aa) (hab : (split b).authority = some ab) (hauth : authKey aa = authKey ab)
+    (hpa : isAbs (split a).path = true) (hpb : isAbs (split b).path = true ∨ (split b).path = [])
+    (hroot : nsegs (split a).path = [])
+    (hbelow : nsegs (Path.parent_or_empty (split b).path) ≠ [])
+    (hnsp : (((split a).query.isSome || (split a).fragment.isSome) &&
+      ((split a).query.isSome || (split b).query.isNone) &&
+      some (renderRel (relSegs a b)) == Path.last (split b).path) = false) :
+    ∃ r t, Ref.relative_to a b = some r ∧ Ref.resolve r b = some t ∧ key t = key a := by
+  have haR : Matches G.reference a := Matches.altL ha
+  have hbR : Matches G.reference b := Matches.altL hb
+  obtain ⟨_, _, hLne0, hcls⟩ := root_remainder a b hroot hbelow
+  have hrel := relative_to_explicit G ok okp oka we a b aa ab haR hbR hsch haa hab hauth hpa hpb hLne0 hcls hnsp
+  exact relative_roundtrip_root_core G ok okp oka we a b (some ab) ha hb hsch hab
+    (by rw [haa]; simp only [Option.map_some, hauth]) hpa
+    (hpb.elim .inl (fun h => .inr ⟨h, rfl⟩)) hroot hbelow hrel
+
+/-- … and without authority on either side (`s:/` relative to `s:/a/b` is `..`) -/
+theorem relative_roundtrip_root_noauth (oka : Grammar.OkAuth G) (we : Grammar.OkWE G) (a b : Text)
+    (ha : Matches G.full a) (hb : Matches G.full b)
+    (hsch : (split a).scheme = (split b).scheme)
+    (haa : (split a).authority = none) (hab : (split b).authority = none)
+    (hpa : isAbs (split a).path = true) (hpb : isAbs (split b).path = true)
+    (hroot : nsegs (split a).path = [])
+    (hbelow : nsegs (Path.parent_or_empty (split b).path) ≠ [])
+    (hnsp : (((split a).query.isSome || (split a).fragment.isSome) &&
+      ((split a).query.isSome || (split b).query.isNone) &&
+      some (renderRel (relSegs a b)) == Path.last (split b).path) = false) :
+    ∃ r t, Ref.relative_to a b = some r ∧ Ref.resolve r b = some t ∧ key t = key a := by
+  have haR : Matches G.reference a := Matches.altL ha
+  have hbR : Matches G.reference b := Matches.altL hb
+  obtain ⟨_, _, hLne0, hcls⟩ := root_remainder a b hroot hbelow
+  have hrel := relative_to_explicit_noauth G ok okp we a b haR hbR hsch haa hab hpa hpb hLne0 hcls hnsp
+  exact relative_roundtrip_root_core G ok okp oka we a b none ha hb hsch hab (by rw [haa]) hpa
+    (.inl hpb) hroot hbelow hrel
 
 end
 
